@@ -126,6 +126,13 @@ def json_ops(doc):
     for nm, ent, must in coords:
         add('append-coord:' + nm, 'data', must,
             lambda d, ent=ent: d['data'].append(copy.deepcopy(ent)))
+    # one coordinate listed more than once (the cell is the sum), small and
+    # at the edge of the 64-bit integers
+    add('repeat-coordinate:copy', 'data', None, _repeat_first)
+    for nm, val in (('2^62-int', 2 ** 62), ('2^53+1-int', 2 ** 53 + 1),
+                    ('small-int', 3), ('float', 0.25)):
+        add('repeat-coordinate:' + nm, 'data', None,
+            lambda d, val=val: _repeat_value(d, val))
     add('matrix_type-dense-raw', 'mtype', None,
         lambda d: d.__setitem__('matrix_type', 'dense'))
     add('matrix_type-dense-reencoded', 'mtype', None, _to_dense)
@@ -158,6 +165,22 @@ def _typed_dup(d, key, raw):
         raise Skip()
     d[key][0]['id'] = raw
     d[key][-1]['id'] = str(raw)
+
+
+def _repeat_first(d):
+    if d.get('matrix_type') != 'sparse' or not d['data']:
+        raise Skip()
+    d['data'].append(copy.deepcopy(d['data'][0]))
+
+
+def _repeat_value(d, val):
+    if d.get('matrix_type') != 'sparse':
+        raise Skip()
+    if isinstance(val, int):
+        # integers only make sense in a document of integers
+        d['data'] = [[i, j, int(v)] for i, j, v in d['data']]
+        d['matrix_element_type'] = 'int'
+    d['data'] += [[0, 0, val], [0, 0, val]]
 
 
 def _to_dense(d):
